@@ -22,6 +22,8 @@ def make_config(rng, profile, tier):
         'grp_sorted': rng.random() < 0.7,
         'grp_kind': rng.choice(['int', 'int', 'neg', 'float', 'big']),
         'ngroups': rng.randrange(1, 6),
+        # a column of large magnitude whose values differ very little in relative terms (time stamps in seconds)
+        'stamp': rng.random() < 0.5,
     }
 
 
@@ -48,6 +50,8 @@ def make_table(cfg):
     for j in range(3):
         cols[f'q{j}'] = [float(rng.choice([0, 0, 1, 2, 5])) for _ in range(n)]
     cols['tag'] = [float(100 + i) for i in range(n)]
+    if cfg.get('stamp'):
+        cols['ts'] = [1.6e9 + 7.0 * i for i in range(n)]
     df = pd.DataFrame(cols)
     kind = cfg['index']
     if kind == 'gaps':
